@@ -71,6 +71,7 @@ type frame struct {
 	env              map[ssa.Value]value // dynamic values of SSA variables
 	locals           []value
 	defers           *deferred
+	depth            int // call depth (unbounded recursion of the code under test is reported)
 	result           value
 	panicking        bool
 	panic            interface{}
@@ -466,6 +467,14 @@ func callSSA(i *interpreter, caller *frame, callpos token.Pos, fn *ssa.Function,
 		i:      i,
 		caller: caller, // for panic/recover
 		fn:     fn,
+	}
+	if caller != nil {
+		fr.depth = caller.depth + 1
+		if fr.depth > 5000 {
+			// the real program dies with "fatal error: stack overflow"
+			// (after exhausting 1 GB of stack); that is a crash, not a bailout
+			panic(targetPanic{iface{t: types.Typ[types.String], v: "stack overflow: call depth exceeds 5000 in " + fn.String() + " (unbounded recursion)"}, ""})
+		}
 	}
 	if fn.Parent() == nil {
 		name := fnKey(fn)
